@@ -562,6 +562,37 @@ theorem companion_tamper (A : Aead) (key : Bytes) (c0 : Nat) (sent : List (UInt8
   obtain ⟨l, hl, he⟩ := comp_tamper_gen A key c0 sent hAuth c0 wire [] 0 rfl
   rw [he]; simpa [authentic] using hl
 
+/-- **A rejected Companion frame costs that frame only.**  A frame whose header is intact but
+    whose ciphertext/tag does not authenticate is dropped and the receive counter moves on by
+    exactly one — as the sender's did when it sealed the original — so the receiver stays in
+    step with the sender (`Chacha20Cipher.decrypt` advances the counter before the tag is
+    checked). -/
+theorem companion_rejected_frame_keeps_step (A : Aead) (key : Bytes) (c : Nat) (t : UInt8)
+    (len3 payload rest : Bytes) (acc : List Delivery) (n : Bytes)
+    (hl : len3.length = 3) (hp : payload.length = beVal len3) (hpos : 0 < payload.length)
+    (hn : nonce? .n12 c = some n) (hbad : A.aopen key n (t :: len3) payload = none) :
+    companionLoop A key true c (t :: len3 ++ payload ++ rest) acc =
+      companionLoop A key true (c + 1) rest (acc ++ [.dropped .invalidTag]) := by
+  rw [compLoop_step A key true c t len3 payload rest acc hl hp]
+  simp [hpos, decrypt, hn, hbad]
+
+/-- … hence every genuine frame sent after it (sealed with the sender's next counter) is
+    still recovered exactly. -/
+theorem companion_valid_after_rejected (A : Aead) (hA : Laws A) (key : Bytes) (c : Nat) (t t2 : UInt8)
+    (len3 payload rest data w : Bytes) (c' : Nat) (acc : List Delivery) (n : Bytes)
+    (hl : len3.length = 3) (hp : payload.length = beVal len3) (hpos : 0 < payload.length)
+    (hn : nonce? .n12 c = some n) (hbad : A.aopen key n (t :: len3) payload = none)
+    (h : companionSend A key true (c + 1) t2 data = .ok (w, c')) :
+    companionLoop A key true c (t :: len3 ++ payload ++ (w ++ rest)) acc =
+      companionLoop A key true c' rest (acc ++ [.dropped .invalidTag, .frame t2 data]) := by
+  rw [companion_rejected_frame_keeps_step A key c t len3 payload (w ++ rest) acc n hl hp hpos hn hbad,
+    companion_roundtrip A hA key true (c + 1) t2 data w c' rest _ h]
+  simp
+
+example : ([0, 0, 17] : Bytes).length = 3 ∧ (List.replicate 17 (0 : UInt8)).length = beVal [0, 0, 17] ∧
+    nonce? .n12 0 = some (List.replicate 12 0) ∧
+    toyAead.aopen [1] (List.replicate 12 0) (8 :: [0, 0, 17]) (List.replicate 17 0) = none := by decide +kernel
+
 /-! ## MRP messages -/
 
 /-- **MRP round trip** of one message (framing by varint is property C02/C04's). -/
